@@ -198,6 +198,13 @@ static void scenario_thread(int tkind, int bkind, int arg, int members)
 	}
 	case 2: {
 		Functor f = {&b, 0, bkind, arg};
+		if (arg & 1) { // the static form: starts f on an existing Thread object and returns a copy that carries the handle
+			Thread obj;
+			Thread t = Thread::start(f, &obj);
+			t.join();
+			check_task(b, 0, bkind);
+			break;
+		}
 		Thread t(f);
 		t.join();
 		check_task(b, 0, bkind);
@@ -240,6 +247,42 @@ static void scenario_thread(int tkind, int bkind, int arg, int members)
 	}
 }
 
+// fire and forget: start(), see the run end through finished(), destroy the object without join() -- N times in a row. Every
+// start() must run its body once; N exceeds the number of thread stacks the process could keep mapped if ended threads were
+// never released (vm.max_map_count / 2), so it is the property itself that is checked, not resource use.
+static void scenario_many(int n)
+{
+	Board b;
+	long maxmap = 65530;
+	if (FILE* f = fopen("/proc/sys/vm/max_map_count", "r")) {
+		if (fscanf(f, "%ld", &maxmap) != 1)
+			maxmap = 65530;
+		fclose(f);
+	}
+	long total = n > 0 ? n : maxmap / 2 + 3000;
+	if (total > 120000)
+		total = 120000; // (a huge limit: the history would take minutes; counted as not exceeding the limit)
+	for (long i = 0; i < total; i++) {
+		int before = b.ran[0];
+		{
+			SubThread t(&b, 0, 0, 0);
+			try {
+				t.start();
+			}
+			catch (...) {
+				VF_FAIL(vf::str("start() number ", i + 1, " of a subclassed Thread failed (the ", i, " earlier threads had all ended and their objects were destroyed)"));
+			}
+			double t0 = vf::now();
+			while (!t.finished() && vf::now() - t0 < 20)
+				sched_yield();
+			VF_CHECK(t.finished(), "thread ", i + 1, " of a fire-and-forget series: finished() still false after 20 s");
+		}
+		VF_CHECK(b.ran[0] == before + 1, "thread ", i + 1, " of a fire-and-forget series ran its body ", b.ran[0] - before, " times");
+	}
+	vf::stats().cls(total > maxmap / 2 ? "many.fire_and_forget_series_longer_than_map_limit/2" : "many.fire_and_forget_series_short");
+	vf::stats().cls("many.threads", total);
+}
+
 // parallel_for over [i0, i1) with nth threads; a guarded counter array catches indices outside the range
 static void scenario_pfor(int i0, int i1, int nth, int slow, int guard_lo, int guard_hi)
 {
@@ -250,17 +293,18 @@ static void scenario_pfor(int i0, int i1, int nth, int slow, int guard_lo, int g
 	std::atomic<int> outside{0};
 	std::atomic<int>* pc = cnt.data();
 	std::atomic<int>* po = &outside;
-	Thread::parallel_for(
-	    i0, i1,
-	    [=](int i) {
-		    if (i == slow)
-			    usleep(300);
-		    if (i < lo || i > hi)
-			    (*po)++;
-		    else
-			    pc[i - lo]++;
-	    },
-	    nth);
+	auto fbody = [=](int i) {
+		if (i == slow)
+			usleep(300);
+		if (i < lo || i > hi)
+			(*po)++;
+		else
+			pc[i - lo]++;
+	};
+	if (nth == 8 && (i0 & 1)) // the documented default thread count, through the default argument
+		Thread::parallel_for(i0, i1, fbody);
+	else
+		Thread::parallel_for(i0, i1, fbody, nth);
 	// read immediately after parallel_for returned
 	VF_CHECK(outside == 0, "parallel_for(", i0, ",", i1, ",f,", nth, ") invoked f for ", outside.load(), " indices far outside the range");
 	for (int i = lo; i <= hi; i++) {
@@ -286,7 +330,18 @@ static void scenario_sem(int nprod, int ncons, int per, int delay)
 	for (int c = 0; c < ncons; c++)
 		ts.push_back(new Thread([=]() {
 			for (int k = 0; k < nprod * per; k++) {
-				ps->wait();
+				if ((delay + c) % 4 == 3) { // polling consumer: trywait() takes a token iff one is there
+					double tw = vf::now();
+					while (!ps->trywait() && vf::now() - tw < 25)
+						sched_yield();
+				}
+				else if ((delay + c) % 4 == 2) { // timed waits with a fractional timeout, repeated until a token arrives
+					double tw = vf::now();
+					while (!ps->wait(0.35) && vf::now() - tw < 25) {
+					}
+				}
+				else
+					ps->wait();
 				(*pg)++;
 			}
 			(*pd)++;
@@ -383,7 +438,11 @@ static void scenario_cond(int nprod, int ncons, int per, int delay)
 	ncons = 1 + (ncons % 4 + 4) % 4;
 	per = 1 + (per % 40 + 40) % 40;
 	Mutex mutex;
-	Condition cond(mutex);
+	Condition cond_bound(mutex), cond_late; // two documented ways to bind the mutex: constructor, or use() later
+	bool late = (delay % 2) == 1;
+	if (late)
+		cond_late.use(mutex);
+	Condition& cond = late ? cond_late : cond_bound;
 	int avail = 0; // protected by mutex
 	std::atomic<int> done{0}, got{0};
 	Mutex* pm = &mutex;
@@ -395,8 +454,12 @@ static void scenario_cond(int nprod, int ncons, int per, int delay)
 		ts.push_back(new Thread([=]() {
 			for (int k = 0; k < nprod * per; k++) {
 				pm->lock();
-				while (*pa == 0)
-					pc->wait();
+				while (*pa == 0) {
+					if ((delay + c) % 3 == 2)
+						pc->wait(0.45); // timed form of the same protocol (the result only says whether it timed out)
+					else
+						pc->wait();
+				}
 				(*pa)--;
 				pm->unlock();
 				(*pg)++;
@@ -409,6 +472,8 @@ static void scenario_cond(int nprod, int ncons, int per, int delay)
 				if (delay % 3 == 1 && k % 5 == 0)
 					usleep(delay % 40);
 				pm->lock();
+				if (late && (k + delay) % 5 == 0)
+					pc->use(*pm); // each party binding the shared mutex again before using the condition: same mutex, no effect
 				(*pa)++;
 				pc->signal();
 				pm->unlock();
@@ -600,6 +665,8 @@ void vf_run_case(const std::string& part, const vf::Case& c)
 		}
 		else if (o.name == "sem")
 			scenario_sem((int)o.i(0), (int)o.i(1), (int)o.i(2), (int)o.i(3));
+		else if (o.name == "many")
+			scenario_many((int)o.i(0));
 		else if (o.name == "semt")
 			scenario_semt((int)o.i(0), (int)o.i(1), (int)o.i(2), (int)o.i(3));
 		else if (o.name == "cond")
@@ -705,6 +772,13 @@ void vf_search(const vf::Args& a)
 			if (i == 1)
 				vf::stats().sample(vf::str("all ", g_dfs.schedules, " interleavings at the hand-over points of: ", vf::serialize(c)));
 		}
+	}();
+	// (4b) fire-and-forget series: one as long as the mapping limit allows in worker 0, short ones in the others
+	[&]() {
+		vf::Case c;
+		c.add(vf::Op("many", {a.worker == 0 ? 0 : 300 + 50 * a.worker}));
+		if (vf::runner().run("many", c))
+			vf::stats().nt(vf::fnv(vf::serialize(c)));
 	}();
 	// (5) Semaphore / Condition scripts
 	[&]() {
